@@ -22,7 +22,11 @@ CHECKS = {
         technique="Coq proof (exhaustive case analysis of task and manager step functions) + end-to-end exploration with store oracle",
         design="2/C01"),
     "C02": dict(
-        text="Liveness over async schedules. Machine-checked ingredients: the number of missing pieces never increases "
+        text="Liveness over async schedules. Machine-checked: the complete download for the sequential schedule with one honest "
+             "seeder (C02_seeder_download_completes: every iteration -- in-order answers, verification and write, PieceDone, owned + "
+             "broadcast, next pick by the code's chooser or any chooser meeting C13's specification, next requests -- decreases the "
+             "missing pieces by one and the loop ends with everything owned, for every number of pieces and every piece length), "
+             "C02_assigned_piece_completes, C02_idle_announcer_asked, and the ingredients: the number of missing pieces never increases "
              "(C02_missing_nonincreasing); the chooser never returns nothing while the peer offers a wanted piece (C02_pick_exists); "
              "an assignment immediately requests the first blocks of the tiling (C02_assignment_requests); the tracker phase cannot "
              "deadlock the manager for any number of failures and any interleaving (C02_tracker_no_deadlock); extraction of a complete "
@@ -34,7 +38,7 @@ CHECKS = {
              "operation sequence whose interval totals fit u64, with and without overflow checks), tied by operation sequences with "
              "boundary byte counts on the real Stats in debug and (thorough tier) release builds; a genuine defect (u32 sum overflow: "
              "task panic / rate 0) was found and repaired. Third part, manager side: histories on the real Session in which peers unchoke while nothing is wanted and announce pieces later; the manager's record of who chokes us must be each peer's last word and an idle unchoked peer announcing a missing piece must be asked at once.",
-        note="Partial: termination under weak fairness follows from the variant + enabledness arguments only on paper; the fairness of "
+        note="Partial: with several peers under arbitrary schedules, termination under weak fairness follows from the variant + enabledness arguments only on paper; the fairness of "
              "tokio's scheduler, TCP, real timers and the terminal UI task are not modelled; the end-to-end runs are exploration, not proof. "
              "Two known findings (known_findings.json: sole-holder-idle-after-reserver-left, sole-holder-have-while-reserved): a sole holder "
              "that is idle when the reservation holder leaves is never re-asked; the check prints KNOWN-FINDING for them and reports any other failure. No axioms.",
